@@ -107,13 +107,25 @@ Definition valid_wr (rs : list record) (fmt : Z) : bool :=
                                                                  && match r_pat r with Some p => printable_ok p | None => true end) rs
    else forallb (fun r => printable_ok (r_prefix r) && printable_ok (r_uri r)) rs)%Z.
 
+(* The property stated on the records alone (no writer, no reader, no escaping): what must be read back.
+     epm:    the records with their synonym lists sorted        jsonld: the written (prefix, URI prefix) pairs
+     shacl:  those pairs as a dictionary, and the non-empty patterns      tsv: the canonical pairs as a dictionary *)
+Definition spec_wobs (rs : list record) (fmt : Z) (syn : bool) : val :=
+  (if fmt =? 0 then VList (map vrecord (sort_records (map normalise rs)))
+   else if fmt =? 1 then vdict (pm_items rs syn)
+   else if fmt =? 2 then
+     VList [vdict (dict_of (pm_items rs syn));
+            vdict (dict_of (flat_map (fun r => match nonempty_pat r with Some p => [(r_prefix r, p)] | None => [] end) rs))]
+   else vdict (dict_of (map (fun r => (r_prefix r, r_uri r)) rs)))%Z.
+
 (* an optional fifth element says how the harness built the converter (constructor / incrementally / by merges); ignored *)
 Definition run_writers4 (rs : val) (fmt syn ex : Z) (obs : val) : val :=
   match as_records rs with
   | Some rs' =>
       let m := model_wobs rs' fmt (negb (Z.eqb syn 0)) (negb (Z.eqb ex 0)) in
       let same := val_eqb m obs in
-      VList [vbool same; vbool (valid_wr rs' fmt); VInt 1; vbool same; if same then VList [] else m]
+      let P := fun o => val_eqb o (spec_wobs rs' fmt (negb (Z.eqb syn 0))) in      (* C14_P_model: P m holds on every valid case *)
+      VList [vbool same; vbool (valid_wr rs' fmt); vbool (P m); vbool (P obs); if same then VList [] else m]
   | None => VList [VInt (-1)] end.
 Definition run_writers (case obs : val) : val :=
   match case with
